@@ -14,9 +14,9 @@ M = rv32.M
 STATE_CAP = 400000
 
 
-def lockstep(prog, regs, words, maxcycles, hazard, want=("cycle", "retire", "final", "stalls")):
+def lockstep(prog, regs, words, maxcycles, hazard, want=("cycle", "retire", "final", "stalls"), style="plain"):
     """Run implementation and reference cycle by cycle. Returns (ref machine, list of (field, detail))."""
-    sim = rv.make_sim(rv.FIVE, prog, regs, words, hazard=hazard)
+    sim = rv.make_sim(rv.FIVE, prog, regs, words, hazard=hazard, style=style)
     r, m = rv.ref_state(regs, words)
     ref = PipeRef({4 * i: ins for i, ins in enumerate(prog)}, r, m, hazard)
     pm = sim.state.performance_metrics
